@@ -104,9 +104,20 @@ def _kill_tree(pr):
         pass
 
 
+def _tmp_env():
+    """Private TMPDIR for one tool run (cbmc leaves its SMT / CNF scratch files behind when killed); removed by the caller."""
+    import tempfile
+    d = tempfile.mkdtemp(prefix="vk.", dir=os.environ.get("VERIF_TMP", "/tmp"))
+    env = dict(os.environ)
+    env["TMPDIR"] = d
+    return d, env
+
+
 def _run(cmd, timeout, log):
+    import shutil
     t0 = time.time()
-    pr = subprocess.Popen(cmd, stdout=subprocess.PIPE, stderr=subprocess.PIPE, preexec_fn=_limits)
+    tmpd, env = _tmp_env()
+    pr = subprocess.Popen(cmd, stdout=subprocess.PIPE, stderr=subprocess.PIPE, preexec_fn=_limits, env=env)
     try:
         so, se = pr.communicate(timeout=timeout)
     except subprocess.TimeoutExpired:
@@ -114,6 +125,7 @@ def _run(cmd, timeout, log):
         raise Undecided("timeout after %ds: %s" % (timeout, " ".join(cmd[:3])))
     finally:
         _kill_tree(pr)
+        shutil.rmtree(tmpd, ignore_errors=True)
 
     class _P:
         pass
@@ -211,10 +223,13 @@ def run_unit(u, repo=None, keep_trace=True):
         # portfolio: the same query on several back ends in parallel; the first to answer decides
         t0 = time.time()
         procs = []
+        tmpdirs = []
         for b in backends:
             c = base_cmd + BACK[b]
             fo = open(base + ".portfolio." + b + ".out", "wb")
-            procs.append((b, c, subprocess.Popen(c, stdout=fo, stderr=subprocess.DEVNULL, preexec_fn=_limits), fo))
+            tmpd, env = _tmp_env()
+            tmpdirs.append(tmpd)
+            procs.append((b, c, subprocess.Popen(c, stdout=fo, stderr=subprocess.DEVNULL, preexec_fn=_limits, env=env), fo))
         done = None
         import selectors
         while time.time() - t0 < tmo and done is None:
@@ -238,6 +253,9 @@ def run_unit(u, repo=None, keep_trace=True):
         for b, c, pr, fo in procs:
             _kill_tree(pr)     # also when it has exited: reap any solver child it left behind
             fo.close()
+        import shutil
+        for d in tmpdirs:
+            shutil.rmtree(d, ignore_errors=True)
         if done is None:
             errs = []
             for b, c, pr, fo in procs:
